@@ -591,20 +591,30 @@ def r8(fx):
             bad.append((scale, border, got, want))
     yield ob('_valid_width_height_and_border: scale <= 0, negative or fractional border -> ValueError; else ((size+2b)*s, border)', not bad,
              fx.fn('writers', '_valid_width_height_and_border'), got=bad[:3], want=[])
-    # every serialiser validates before writing
-    writersl = ['write_svg', 'write_eps', 'write_png', 'write_pdf', 'write_pbm', 'write_pam', 'write_ppm', 'write_xpm', 'write_xbm']
+    # every sized serialiser refuses a bad scale / border before it opens the output (rendered on a pattern symbol)
+    from . import render
+    writersl = ['write_svg', 'write_eps', 'write_png', 'write_pdf', 'write_pbm', 'write_pam', 'write_ppm', 'write_xpm', 'write_xbm', 'write_tex']
     missing = []
+    itr = Interp(max_steps=20_000_000)
+    m = render.pattern(11, 11)
     for w in writersl:
-        fn = fx.fn('writers', w)
-        first_write = [n for n in src.walk_local(fn) if isinstance(n, ast.With)]
-        v = [c for c in src.calls_in(fn, '_valid_width_height_and_border', into_nested=False)]
-        if len(v) != 1 or not first_write or not nf.dominators(first_write[0], fn, lambda s, v=v: any(x is v[0] for x in ast.walk(s))):
-            missing.append(w)
-    tex = fx.fn('writers', 'write_tex')
-    okt = any(pat.match(s, 'check_valid_scale(scale)', mode='stmt') is not None for s in tex.body) and \
-        any(pat.match(s, 'check_valid_border(border)', mode='stmt') is not None for s in tex.body)
-    yield ob('every sized serialiser validates scale and border before opening the output', not missing and okt, fx.forest.mod('writers'),
-             where='writers.write_*', got=missing, want=[])
+        raster = w in ('write_png', 'write_pbm', 'write_pam', 'write_ppm', 'write_xpm', 'write_xbm')
+        for scale, border in ((0, None), (-1, 1), (1, -1), (1, 0.5), (-0.5, None)) + (((0.5, None), (0.99, 1)) if raster else ()):
+            opened = []
+
+            def writable(out, mode, encoding=None, opened=opened):
+                opened.append(mode)
+                return render.CM(render.Rec())
+            try:
+                render.run(fx, itr, w, m, (11, 11), kw={'scale': scale, 'border': border}, extra={'writable': writable})
+                missing.append(f'{w}(scale={scale}, border={border}): accepted')
+            except PyRaise as ex:
+                if ex.name != 'ValueError' or opened:
+                    missing.append(f'{w}(scale={scale}, border={border}): {ex.name}' + (' after opening the output' if opened else ''))
+            except render.Bad as ex:
+                missing.append(f'{w}(scale={scale}, border={border}): {ex}')
+    yield ob('every sized serialiser validates scale and border before opening the output', not missing, fx.forest.mod('writers'),
+             where='writers.write_*', got=missing[:4], want=[])
 
 
 class Cfg(dict):
